@@ -72,6 +72,8 @@ void runC01() {
     if (P > 3) P = 3;
 #endif
     bool anyFut = false, futKids = false, poolProducer = false;
+    // futures whose functor schedules children reach a known defect of the destructor: keep them a minority class
+    const bool allowFut = r.chance(0.6), allowFutKids = allowFut && r.chance(0.35);
     long budget = 0;
     for (int p = 0; p < P; ++p) {
       Program prog;
@@ -97,7 +99,11 @@ void runC01() {
           uint16_t bnv = static_cast<uint16_t>(r.pick(bn));
           prog.ops.push_back(mkOp(O_BULK, bnv, A_NONE, 0, dwell));
           budget += bnv;
-        } else if (x < 0.90) {
+        } else if (x < 0.90 && allowFut) {
+          if (!allowFutKids) {
+            act = A_NONE;
+            k = 0;
+          }
           prog.ops.push_back(mkOp(r.chance(0.25) ? O_FUT_ASYNC : O_FUT, 1, act, k, dwell));
           anyFut = true;
           if (act != A_NONE) futKids = true;
@@ -123,11 +129,11 @@ void runC01() {
       s.gateRelease = r.pick(rel);
     }
     // ending with a future makes "the destructor starts while a placed task is still in a steal ring" likely
-    bool tailFut = r.chance(0.35);
+    bool tailFut = allowFut && r.chance(0.5);
     if (tailFut) {
       Program tail;
       int nf = static_cast<int>(r.range(1, 4));
-      bool kids = r.chance(0.6);
+      bool kids = allowFutKids;
       for (int i = 0; i < nf; ++i) tail.ops.push_back(mkOp(r.chance(0.5) ? O_FUT_ASYNC : O_FUT, 1, kids ? A_KIDS_POOL : A_NONE, kids ? 2 : 0, 0));
       s.programs.push_back(tail);
       s.mainProg = static_cast<int>(s.programs.size()) - 1;
@@ -138,6 +144,23 @@ void runC01() {
     s.perturb = r.pick(pert);
     if (r.chance(0.2)) s.futexDelay = 0.2;
     if (r.chance(0.1)) s.futexSpur = 0.05;
+    // shutdown with the central-queue hint race: all workers gated, parents that force-queue children are
+    // queued, the gate opens from inside ~ThreadPool, workers are delayed before clearing the hint
+    if (s.N >= 2 && r.chance(0.3)) {
+      s.hintRace = true;
+      s.perturb = 0;
+      s.gates = s.N;
+      s.gateRelease = 2;
+      Program tail;
+      int np = static_cast<int>(r.range(10, 60));
+      for (int i = 0; i < np; ++i) tail.ops.push_back(mkOp(O_SCHED_FQ, 1, A_KIDS_POOL_FQ, static_cast<uint8_t>(r.range(1, 3)), static_cast<uint16_t>(r.range(40, 250))));
+      if (s.mainProg >= 0) {
+        for (auto& op : tail.ops) s.programs[static_cast<size_t>(s.mainProg)].ops.push_back(op);
+      } else {
+        s.programs.push_back(tail);
+        s.mainProg = static_cast<int>(s.programs.size()) - 1;
+      }
+    }
     std::string gateCls = s.gates ? (s.gateRelease == 2 ? "gated-dtor" : s.gateRelease == 1 ? "gated-late" : "gated-early") : "free";
     std::string key = std::string("dtor/") + sizeClass(s.N) + "/" + (s.mode ? "poll" : "wake") + "/" + gateCls + "/" + (futKids ? "futkids" : anyFut ? "fut" : "nofut");
     J spec = s.json();
@@ -161,6 +184,7 @@ void runC01() {
         }
   doneBulk:
     if (s.mult == 1) cls.push_back("mult1");
+    if (s.hintRace) cls.push_back("hint-race");
     ranOnClasses(o, cls);
     vrt::caseEnd(o.json(), o.ids >= 2 ? spec.str() : "", cls);
   }
@@ -248,12 +272,13 @@ void runC02() {
     prog.stealMult = r.chance(0.5) ? 1 : 4;
     long budget = 0;
     bool recursive = false;
-    // tryWait(0) can only succeed through the workers: not with zero threads and queued work
-    genSetProgram(r, prog, s.N, prog.setKind >= 2, true, budget, recursive, s.N > 0);
-    s.programs.push_back(prog);
     int ctx = r.chance(0.3) ? 1 : 0;
+    // tryWait(0) can only succeed through other pool threads: not with zero threads, not from a pool task
+    genSetProgram(r, prog, s.N, prog.setKind >= 2, true, budget, recursive, s.N > 0 && ctx == 0);
+    s.programs.push_back(prog);
     if (ctx == 0) s.mainProg = 0;
     else s.poolTasks.push_back(0);
+    s.joinPoolTasks = true;
     // concurrent producers on a shared ConcurrentTaskSet owned by main
     int extra = 0;
     if (r.chance(0.4)) {
@@ -381,6 +406,7 @@ void runC47() {
     s.programs.push_back(prog);
     if (load >= 2) s.poolTasks.push_back(0);
     else s.mainProg = 0;
+    s.joinPoolTasks = true;
     static const double pert[] = {0, 0, 0.1};
     s.perturb = r.pick(pert);
     const char* ln[] = {"idle", "overloaded", "pool-recursive", "pool-recursive-overloaded"};
